@@ -30,9 +30,15 @@ CutTo(s, n) == [i \in 1..n |-> s[i]]
 (* spline is reducible everywhere, the weight function is not (numerator and denominator disagree).            *)
 Greville(U, i) == LET p == Deg(U) IN Div(SumSeq([k \in 1..p |-> K(U, i + k - 1)]), R(p))     \* i = 1..npts, p >= 1
 HomLin(U, W) == Curve(U, [i \in 1..Npts(U) |-> Div(Greville(U, i), W[i])], W)
+(* weights 3 + Greville_i: the weight function is the LINEAR polynomial 3 + u (> 0 on the universe), so for degree >= 2 *)
+(* every linear polynomial q lies in the rational space (q W has degree 2)                                              *)
+LinW(U) == [i \in 1..Npts(U) |-> Add(R(3), Greville(U, i))]
 MCInit2 ==
   IF Acts = {"FnBasis"} THEN {[a |-> KvObj(U)] : U \in AllKV}
   ELSE UNION {{[a |-> CvObj(Curve(U, P, W)), b |-> NoObj] : P \in Pts(Npts(U)), W \in Wts(Npts(U))} : U \in AllKV}
+       \cup (IF "ratlin" \in PtKinds
+             THEN {[a |-> CvObj(Curve(U, Gen1(Npts(U)), LinW(U))), b |-> NoObj] : U \in {V \in AllKV : Deg(V) >= 2}}
+             ELSE {})
        \cup (IF "homlin" \in PtKinds
              THEN UNION {{[a |-> CvObj(HomLin(U, W)), b |-> NoObj] : W \in {WGen1(Npts(U)), WGen2(Npts(U))}}
                             : U \in {V \in AllKV : Deg(V) >= 1}}
@@ -43,7 +49,7 @@ EvalGrid(U) == ParamGrid(U, Deg(U) + 1) \cup Midpoints(U)
 
 (* the default nodes of fit_points: closed equispaced over the whole interval *)
 NCGrid(V, n) == [i \in 1..n |-> Add(Umin(V), Mul(Sub(Umax(V), Umin(V)), Q(i - 1, n - 1)))]
-Tols == {<<"default">>, <<"none">>, <<"q", 1, 2>>}
+Tols == {<<"default">>, <<"none">>, <<"q", 1, 2>>, <<"q", 0, 1>>, <<"e", 30>>}     \* 1e-9, None, 1/2, 0, 1e-30
 InteriorSet(U) == KnotSet(U) \ {Umin(U), Umax(U)}
 
 (* other operands for binary operations: curves of the universe on the same interval *)
@@ -110,7 +116,9 @@ MCArgs(name, h, dep) ==
     [] name = "CvKnotRemove" ->
          {[obj |-> "a", nodes |-> n, tol |-> <<"default">>] :
              n \in MultisetsUpTo(InteriorSet(U), NodeSize) \ {<<>>}}
-         \cup {[obj |-> "a", nodes |-> <<x>>, tol |-> t] : x \in InteriorSet(U), t \in Tols \ {<<"default">>}}
+         \cup {[obj |-> "a", nodes |-> <<x>>, tol |-> t] : x \in InteriorSet(U), t \in {<<"none">>, <<"q", 0, 1>>}}
+         \cup (IF InteriorSet(U) = {} THEN {} ELSE
+               {[obj |-> "a", nodes |-> <<CHOOSE x \in InteriorSet(U) : TRUE>>, tol |-> t] : t \in {<<"q", 1, 2>>, <<"e", 30>>}})
          \cup {[obj |-> "a", nodes |-> n, tol |-> <<"default">>] : n \in {<<Q(5, 7)>>, <<Umin(U)>>, <<Umax(U)>>}}
     [] name = "CvDegreeDecrease" ->
          {[obj |-> "a", times |-> t, tol |-> <<"default">>, form |-> f] : t \in 1..2, f \in {"method", "setter"}}
@@ -165,6 +173,10 @@ MCArgs(name, h, dep) ==
          {[obj |-> "a", other |-> C, nodes |-> nd] :
              C \in {c \in Others({}) : c.W = <<>>},
              nd \in {<<>>} \cup (IF Deg(V) >= 1 THEN {<<Umin(V), Umax(V)>>, Knots(V)} ELSE {})}
+    [] name = "CvFitInRational" ->    \* a rational receiver whose space contains the (linear) source: reproduced
+         IF h["a"].W = <<>> \/ h["a"].W # LinW(U) THEN {} ELSE
+         {[obj |-> "a", other |-> Poly(<<Umin(U), Umin(U), Umax(U), Umax(U)>>, <<x, y>>), nodes |-> <<>>] :
+             x \in {R(2), Q(-1, 3)}, y \in {R(-1), Q(5, 7)}}
     [] name = "CvFitPoints" ->
          LET V == U
              grid == SeqOfSet(EvalGrid(V))
